@@ -82,4 +82,4 @@ def json_key(h):
 def replay(ctx, finding):
     sc = dict(finding['scenario']); sc['id'] = 1
     tr, _ = srvfam.run_harness(ctx, [sc], 'replay', shards=1)
-    srvfam.judge(ctx, [sc], tr, props={'C08'})
+    srvfam.judge(ctx, [sc], tr, props={'C08'}, confirm=False)
